@@ -134,6 +134,7 @@ def r1_only_tracked_paths_deleted(repo=None):
     f = cfold.Folder(repo)
     pats = {n: f.name("list_drf", n) for n in ("RE_DRF", "RE_DMD", "RE_DRFDMD")}
     pats["PROPNAME"] = r"[^\n]*/(?:drf_properties|dmd_properties|metadata)\.h5$"
+    pats["TMPNAME"] = r"[^\n]*/tmp\.[^/\n]*$"
     sp = rx.Space(pats, texts=["tmp.rf@/\n0123456789-T"])
     for n in ("RE_DRF", "RE_DMD", "RE_DRFDMD"):
         w = (sp[n] & sp["PROPNAME"]).witness()
@@ -141,6 +142,12 @@ def r1_only_tracked_paths_deleted(repo=None):
             r.ok("list_drf.%s" % n, "accepts no properties-file path")
         else:
             r.violation("python/digital_rf/list_drf.py", "-", n, "a properties file can be tracked (witness %r)" % w)
+        w = (sp[n] & sp["TMPNAME"]).witness()
+        if w is None:
+            r.ok("list_drf.%s" % n, "accepts no path whose file name starts with tmp. (whatever the directories above are called)")
+        else:
+            r.violation("python/digital_rf/list_drf.py", "-", "%s accepts a tmp. file" % n, "the writer's in-progress file can be tracked and "
+                        "therefore deleted by the ringbuffer (witness %r)" % w)
     r.guard(10)
     return r
 
